@@ -112,17 +112,6 @@ func refBlake2xs(m []byte, n int) []byte {
 	return o
 }
 
-// both oracles for the FIPS 202 functions: x/crypto and ref/keccak must agree (else the oracle is broken)
-func both(name string, a, b func(m []byte, n int) []byte) func(m []byte, n int) []byte {
-	return func(m []byte, n int) []byte {
-		x, y := a(m, n), b(m, n)
-		if !bytes.Equal(x, y) {
-			panic("SELFTEST-FAIL: oracles disagree for " + name)
-		}
-		return x
-	}
-}
-
 func drawD(t *rapid.T) byte {
 	if rapid.Bool().Draw(t, "Dedge") {
 		return rapid.SampledFrom([]byte{0x01, 0x06, 0x07, 0x0b, 0x1f, 0x7f, 0x40}).Draw(t, "D")
@@ -171,7 +160,7 @@ func functions() []fn {
 		return fn{name: "sponge/" + name, cost: 1, mk: func(t *rapid.T) xofsm.Spec {
 			return xofsm.Spec{
 				New:  func() xofsm.Inst { s := newS(); return shaInst{&s} },
-				Ref:  both(name, xDigest(newX), func(m []byte, n int) []byte { return keccak.SHA3(bitsz, m, n) }),
+				Ref:  xDigest(newX),
 				Rate: 200 - 2*bitsz/8, MaxOut: bitsz / 8, SumLen: bitsz / 8, Big: 40,
 			}
 		}}
@@ -182,10 +171,10 @@ func functions() []fn {
 		sha("SHA3-384", 384, sha3.New384, xsha3.New384),
 		sha("SHA3-512", 512, sha3.New512, xsha3.New512),
 		{name: "sponge/SHAKE128", cost: 1, mk: func(t *rapid.T) xofsm.Spec {
-			return xofsm.Spec{New: func() xofsm.Inst { s := sha3.NewShake128(); return shaInst{&s} }, Ref: both("SHAKE128", xShake128, keccak.SHAKE128), Rate: 168, Big: 40}
+			return xofsm.Spec{New: func() xofsm.Inst { s := sha3.NewShake128(); return shaInst{&s} }, Ref: xShake128, Rate: 168, Big: 40}
 		}},
 		{name: "sponge/SHAKE256", cost: 1, mk: func(t *rapid.T) xofsm.Spec {
-			return xofsm.Spec{New: func() xofsm.Inst { s := sha3.NewShake256(); return shaInst{&s} }, Ref: both("SHAKE256", xShake256, keccak.SHAKE256), Rate: 136, Big: 40}
+			return xofsm.Spec{New: func() xofsm.Inst { s := sha3.NewShake256(); return shaInst{&s} }, Ref: xShake256, Rate: 136, Big: 40}
 		}},
 		{name: "sponge/TurboSHAKE128", cost: 1, mk: func(t *rapid.T) xofsm.Spec {
 			D := drawD(t)
